@@ -114,7 +114,7 @@ def chain_writers(chk, F, rule, cfg):
                         chk.ob(rule, 'no assignment to chain cells through &self', False, config=cfg, fn=fn, site='write', what='cell assigned through &self', found=symex.show_lv(lv))
     chk.floor(rule, 'OnceCell operations on the value chain', n, 3, config=cfg)
     # writers of Unimock.value_chain
-    users = sorted(set(b.defp for b, _, _, _ in L.field_accesses(F, 'Unimock', 'value_chain')))
+    users = L.attributed(F, L.field_accesses(F, 'Unimock', 'value_chain'))
     allow = {'Unimock::from_assembler', '<Unimock as core::clone::Clone>::clone', 'teardown::teardown', 'Unimock::make_ref', 'Unimock::make_mut', 'Unimock::make_fragile_ref', 'Unimock::make_fragile_mut'}
     chk.ob(rule, 'the instance\'s chain is only touched by constructors, make_ref/make_mut and teardown', set(users) <= allow, config=cfg, site='field:value_chain', what='users of Unimock.value_chain %s' % sorted(set(users) - allow), found=users)
     mm = F.method('Unimock', 'make_mut')
@@ -131,7 +131,7 @@ def helper_cell(chk, F, rule, cfg):
     lazily (get_or_init), read, and released only by teardown. Replacing or clearing it earlier would release values lent through it
     while the instance is alive."""
     n = 0
-    users = sorted(set(b.root for b, _, _, _ in L.field_accesses(F, 'Unimock', 'default_impl_delegator_cell')))
+    users = L.attributed(F, L.field_accesses(F, 'Unimock', 'default_impl_delegator_cell'), root=True)
     for d in users:
         fn = F.fns.get(d)
         if fn is None:
